@@ -55,7 +55,7 @@ func c14Case(c *core.Ctx, idx int) {
 	// one codec the instance shares, must each get the whole descriptor - in a quarter of the cases
 	// before anybody has asked for it, so that the very first descriptions overlap
 	want := tc.cfg.Describe(tc.typ, "")
-	if idx%4 == 1 {
+	if idx%3 == 1 {
 		const g, reps = 4, 6
 		var wg sync.WaitGroup
 		diffs := make([]string, g)
@@ -211,7 +211,7 @@ func c13Case(c *core.Ctx, idx int) {
 	defer func() {
 		// several goroutines walking different messages through the one shared Descriptor, each with
 		// its own outputter, get what a walk alone gives
-		if idx%4 != 3 || len(walked) < 2 {
+		if idx%3 != 2 || len(walked) < 2 {
 			return
 		}
 		const g, rounds = 4, 5
@@ -327,7 +327,7 @@ func init() {
 	core.Register(&core.Prop{
 		ID:        "C14",
 		Technique: "structural comparison of the real Codec.Descriptor() with a descriptor derived independently from the reflect.Type, for every generated type and each of its tagged sub-types",
-		Rule:      "generated and library types with a finite descriptor (all options, json tags incl. \",omitempty\", \"-\", unicode names, skipped and unexported fields, null.*, JSON any, BigQuery time, named scalars and containers) in the four configurations; index, name rule, field type, struct type name, explicit presence, logical types, order and count are compared recursively; a second instance with another time codec describes the same type; every fourth case 4 goroutines call Descriptor() on the shared codec at once. distinct = distinct (type, configuration) pairs with more than two descriptor nodes",
+		Rule:      "generated and library types with a finite descriptor (all options, json tags incl. \",omitempty\", \"-\", unicode names, skipped and unexported fields, null.*, JSON any, BigQuery time, named scalars and containers) in the four configurations; index, name rule, field type, struct type name, explicit presence, logical types, order and count are compared recursively; a second instance with another time codec describes the same type; every third case 4 goroutines call Descriptor() on the shared codec at once. distinct = distinct (type, configuration) pairs with more than two descriptor nodes",
 		Assume:    []string{"recursive types are excluded: Descriptor() does not terminate on them (known finding D20)", "the free-form TypeName of map-entry pseudo-structs is not part of the statement and is not compared"},
 		Plan: func(tier string) []core.Lane {
 			if tier == "thorough" {
@@ -341,7 +341,7 @@ func init() {
 		ID:        "C13",
 		Technique: "descriptor-walk monitor: JSON produced by the real Descriptor.Read + JSONOutput from Marshal's output, parsed by encoding/json and matched against the generated value in the JSON data model; repeated with the Descriptor restored through plenc and through encoding/json",
 		Rule: "default configuration; generated non-recursive types (no proto option) x boundary-biased values with finite floats, times within years 1..9999, valid-UTF-8 strings and non-negative narrow flat ints: slices of every element kind incl. bool/time/empty elements and nil pointers, string-keyed maps with zero values and empty keys, other maps with zero entries, pointers, null.*, JSON any with nulls. " +
-			"The output must parse, match the value (omitted fields may be absent, numbers exact), and be byte-identical for the two restored descriptors and for one process-long JSONOutput that is Reset before every walk; every fourth case ends with 4 goroutines walking the case's messages through the one Descriptor at once. distinct = (type, value-shape) hashes with non-zero content",
+			"The output must parse, match the value (omitted fields may be absent, numbers exact), and be byte-identical for the two restored descriptors and for one process-long JSONOutput that is Reset before every walk; every third case ends with 4 goroutines walking the case's messages through the one Descriptor at once. distinct = (type, value-shape) hashes with non-zero content",
 		Assume: []string{"known findings D20 (recursive types) and D21 (negative narrow flat ints) are excluded from generation", "encoding/json as the independent parser"},
 		Plan: func(tier string) []core.Lane {
 			if tier == "thorough" {
